@@ -63,7 +63,11 @@ monvars == <<mmax, mapi, pre, q, mode, vcls, nd, hasv, refF, refM, bad>>
 Framing    == {"rsv", "resop", "masked", "fragctl", "bigctl"}   \* RFC 6455 framing rules: 1002 + no writes
 FrameLevel == Framing \cup {"frame-over-max"}                     \* every read API must report these
 MsgLevel   == {"contnostart", "newdata", "msg-over-max"}          \* the message API must report these
-FrameApis  == {"NF", "ANF"}
+FrameApis  == {"NF", "ANF", "NF+lc", "ANF+lc"}
+\* "+lc": the application has sent its own Close before it goes on reading (state closed-by-us). Violations must
+\* still be reported and never delivered; a Close(1002) cannot be queued any more (one Close per session) and
+\* application writes are refused anyway, so the two rules about what follows a violation do not apply.
+LcApis     == {"NF+lc", "ANF+lc", "NM+lc", "ANM+lc"}
 IsData(op) == op \in {"text", "binary", "cont"}
 
 NoRef == [nd |-> -1, fin |-> ""]
@@ -164,7 +168,7 @@ ObsMsg(e) ==
      ELSE Fail("C06/not-delivered/" \o mapi)
 
 ObsPost(e) ==
-  IF mode = "violated" /\ vcls \in Framing THEN
+  IF mode = "violated" /\ vcls \in Framing /\ mapi \notin LcApis THEN
      IF e.code # 1002 THEN Fail("C15/no-1002/" \o vcls)
      ELSE IF e.wr # 0 THEN Fail("C15/write-accepted/" \o vcls)
      ELSE UNCHANGED monvars
@@ -178,6 +182,9 @@ ObsPanic(e) == Fail((IF hasv THEN "C15/panic/" ELSE "C06/panic/") \o mapi)
 \* scenario all four must have accounted for the same number of messages.
 ObsEndRun(e) ==
   IF mode = "run" THEN Fail("C06/not-delivered/" \o mapi)
+  ELSE IF mapi \in LcApis THEN   \* not compared with the runs of the other APIs (the session ends differently)
+       /\ mode' = "idle"
+       /\ UNCHANGED <<mmax, mapi, pre, q, vcls, nd, hasv, refF, refM, bad>>
   ELSE LET fin == IF mode = "free" THEN "free" ELSE IF mode = "violated" THEN "violated:" \o vcls ELSE mode
            me  == [nd |-> nd, fin |-> fin]
            isF == mapi \in FrameApis
